@@ -428,6 +428,78 @@ def stats_of(l, st=None, depth=0):
                 stats_of(c, st, depth + 1)
     return st
 
+# ------------------------------------------------------- bounded-exhaustive small histories
+
+def enum_lineages(T, p, dups_left, ids):
+    """all histories of one ancestral gene entering taxon p: per child branch loss / one copy / duplication
+    with two copies (at most `dups_left` duplications in total), every elision pattern.  Yields (SL, dups used);
+    gene ids are placeholders renumbered by the caller."""
+    node = sub(T, p)
+    if not node[1]:
+        yield ('g', '?', None), 0
+        return
+    def branches(i, left):
+        """yield (list of subs for children i.., dups used)"""
+        if i == len(node[1]):
+            yield [], 0
+            return
+        for rest, used in branches(i + 1, left):
+            yield rest, used                                        # loss on branch i
+            for l, u in enum_lineages(T, p + (i,), left - used, ids):
+                yield [('one', i, l)] + rest, used + u
+            if left - used >= 1:
+                for l1, u1 in enum_lineages(T, p + (i,), left - used - 1, ids):
+                    for l2, u2 in enum_lineages(T, p + (i,), left - used - 1 - u1, ids):
+                        yield [('dup', i, None, [l1, l2])] + rest, used + 1 + u1 + u2
+    for subs, used in branches(0, dups_left):
+        if not subs:
+            continue
+        yield ('grp', True, None, False, subs), used
+        if len(subs) == 1:
+            yield ('grp', False, None, False, subs), used
+
+def renumber(l, counter):
+    if l[0] == 'g':
+        counter[0] += 1
+        return ('g', 'g%d' % counter[0], None)
+    _, w, hid, label, subs = l
+    new = []
+    for s2 in subs:
+        if s2[0] == 'one':
+            new.append(('one', s2[1], renumber(s2[2], counter)))
+        elif s2[0] == 'dup':
+            new.append(('dup', s2[1], s2[2], [renumber(c, counter) for c in s2[3]]))
+        else:
+            new.append(s2)
+    return ('grp', w, hid, label, new)
+
+def exhaustive_datasets(max_leaves=4, max_dups=2, naming='own'):
+    """every recoverable single-family dataset rooted at the tree root, on every tree shape up to max_leaves"""
+    import random as _r
+    rng = _r.Random(0)
+    for n in range(2, max_leaves + 1):
+        for shape in all_shapes(n):
+            T = name_tree(rng, shape)
+            for l, _ in enum_lineages(T, (), max_dups, None):
+                if l[0] != 'grp' or not l[1]:
+                    continue
+                l = renumber(l, [0])
+                if not recoverable((), l):
+                    continue
+                D = Dataset(T, naming)
+                l = ('grp', True, '1') + tuple(l[3:])
+                D.families = [((), l, '1')]
+                per_leaf = {}
+                for g, t in gene_taxa((), l):
+                    per_leaf.setdefault(t, []).append(g)
+                for t in paths(T):
+                    if not sub(T, t)[1]:
+                        D.species.append((sub(T, t)[0], [(g, [('protId', 'P' + g)]) for g in per_leaf.get(t, [])]))
+                D.groups = encode(T, naming, (), l)
+                D.base_groups = list(D.groups)
+                D.meta = dict(exhaustive=True)
+                yield D
+
 # -------------------------------------------------------------------------------------- datasets
 
 class Dataset(object):
